@@ -23,6 +23,7 @@
 EXTENDS Naturals, Integers, Sequences, FiniteSets, TLC
 
 B(x) == IF x THEN 1 ELSE 0
+Dep(a, bit) == (a = "1" => bit = 1) /\ (a = "" => bit = 0)      \* deprecated="0" is not written by any producer: silent
 Is1(a) == a = "1"
 Has(a) == a # ""
 Sentinel == 1023                 \* ACCESSOR_SENTINEL = ASYNC_SENTINEL = 0x3ff
@@ -111,7 +112,7 @@ NodeClauses(env, ctx, nd, bn) ==
         hs == isC /\ nd.fsize >= 0
     IN [ TypeTag     |-> bn.tag = NodeTag(env, nd) /\ bn.simple = B(r.basic # ""),
          TypePointer |-> bn.pointer = NodePointer(env, ctx, nd),
-         TypeArray   |-> nd.k = "array" =>
+         TypeArray   |-> (nd.k = "array" /\ ~(nd.len >= 0 /\ nd.fsize >= 0)) =>       \* one dimension field: both has no encoding, silent
                             /\ bn.at = ArrayTypeCode(nd.rname)
                             /\ bn.hl = B(hl) /\ bn.hs = B(hs)
                             /\ bn.zt = B(isC /\ (IF Has(nd.zt) THEN Is1(nd.zt) ELSE ~(hl \/ hs)))
@@ -224,7 +225,7 @@ FnIsAccessor(g) == g.ckind \in {"method", "constructor"} /\ (Has(g.setprop) \/ H
 FunctionClauses(g, b) == [
     FnName        |-> b.name = (IF Has(g.shadows) THEN g.shadows ELSE g.name),
     FnSymbol      |-> b.symbol = g.cid,
-    FnDeprecated  |-> b.deprecated = B(Has(g.deprecated)),
+    FnDeprecated  |-> Dep(g.deprecated, b.deprecated),
     FnConstructor |-> b.constructor = B(g.ckind = "constructor"),
     FnIsStatic    |-> b.is_static = B(g.ckind = "function"),
     FnThrows      |-> b.throws = B(Is1(g.throws)),
@@ -257,7 +258,7 @@ BuildFunction(g) ==
 (* b: setter/getter raw indices and setter_name/getter_name = name of that method of the container ("" if none)             *)
 PropertyClauses(env, g, b) == [
     PropName      |-> b.name = g.name,
-    PropDeprecated |-> b.deprecated = B(Has(g.deprecated)),
+    PropDeprecated |-> Dep(g.deprecated, b.deprecated),
     PropFlags     |-> /\ b.readable = B(g.readable = "" \/ Is1(g.readable)) /\ b.writable = B(Is1(g.writable))
                       /\ b.construct = B(Is1(g.construct)) /\ b.construct_only = B(Is1(g.construct_only)),
     PropTransfer  |-> b.transfer_ownership = B(g.transfer = "full") /\ b.transfer_container_ownership = B(g.transfer = "container"),
@@ -285,7 +286,7 @@ SignalClauses(g, b) == [
                     /\ b.run_cleanup = B(g.when \in {"cleanup", "CLEANUP"}),
     SignalFlags |-> /\ b.no_recurse = B(Is1(g.no_recurse)) /\ b.detailed = B(Is1(g.detailed)) /\ b.action = B(Is1(g.action))
                     /\ b.no_hooks = B(Is1(g.no_hooks)),
-    SignalDeprecated |-> b.deprecated = B(Is1(g.deprecated)) ]
+    SignalDeprecated |-> Dep(g.deprecated, b.deprecated) ]
 SignalNames == {"SignalName", "SignalWhen", "SignalFlags", "SignalDeprecated"}
 BuildSignal(g) ==
     LET last == g.when = "" \/ g.when \in {"last", "LAST"}
@@ -339,7 +340,7 @@ ValueClauses(g, b) == [
     ValueName  |-> b.name = g.name,
     ValueValue |-> b.value32 = Low32(g.v),
     ValueUnsigned |-> b.unsigned_value = B(~g.v.neg \/ g.v.l = Zero4),
-    ValueDeprecated |-> b.deprecated = B(Has(g.deprecated)) ]
+    ValueDeprecated |-> Dep(g.deprecated, b.deprecated) ]
 ValueNames == {"ValueName", "ValueValue", "ValueUnsigned", "ValueDeprecated"}
 BuildValue(g) == [name |-> g.name, value32 |-> Low32(g.v), unsigned_value |-> B(~g.v.neg \/ g.v.l = Zero4),
                   deprecated |-> B(g.deprecated # "")]
@@ -349,7 +350,7 @@ ConstSizeOfTag(t) == CASE t = 1 -> 4 [] t \in {2, 3} -> 1 [] t \in {4, 5} -> 2 [
                        [] t = 10 -> 4 [] t = 11 -> 8 [] OTHER -> -1
 ConstantClauses(env, g, b) == [
     ConstName       |-> b.name = g.name,
-    ConstDeprecated |-> b.deprecated = B(Has(g.deprecated)),
+    ConstDeprecated |-> Dep(g.deprecated, b.deprecated),
     ConstType       |-> TypeOK(env, NoCtx, g.type, b.type),
     ConstValue      |-> b.value = g.value,
     ConstSize       |-> LET sz == ConstSizeOfTag(NodeTag(env, g.type[1])) IN sz >= 0 => b.size = sz ]
@@ -371,7 +372,7 @@ GTypeOK(g, b) == IF Has(g.gtype_name) THEN b.unregistered = 0 /\ b.gtype_name = 
 StructClauses(env, g, b) == [
     StructKind       |-> b.blob_type = (CASE g.tag = "record" -> 3 [] g.tag = "boxed" -> 4 [] g.tag = "union" -> 11),
     StructName       |-> b.name = g.name,
-    StructDeprecated |-> b.deprecated = B(Has(g.deprecated)),
+    StructDeprecated |-> Dep(g.deprecated, b.deprecated),
     StructGType      |-> GTypeOK(g, b),
     StructFlags      |-> g.tag = "record" => (b.is_gtype_struct = B(Has(g.gtype_struct_for)) /\ b.foreign = B(Is1(g.foreign))),
     StructFuncs      |-> b.copy_func = g.copy_func /\ b.free_func = g.free_func,
@@ -384,7 +385,7 @@ StructNames == {"StructKind", "StructName", "StructDeprecated", "StructGType", "
 EnumClauses(env, g, b) == [
     EnumKind        |-> b.blob_type = (IF g.tag = "bitfield" THEN 6 ELSE 5),
     EnumName        |-> b.name = g.name,
-    EnumDeprecated  |-> b.deprecated = B(Has(g.deprecated)),
+    EnumDeprecated  |-> Dep(g.deprecated, b.deprecated),
     EnumGType       |-> GTypeOK(g, b),
     EnumErrorDomain |-> b.error_domain = g.error_domain,
     EnumValuesInOrder |-> b.value_names = g.values /\ b.n_values = Len(g.values),
@@ -398,7 +399,7 @@ NCallbackFields(fs) == Cardinality({i \in 1..Len(fs) : fs[i].cb /\ fs[i].intro})
 ObjectClauses(env, g, b) == [
     ObjKind         |-> b.blob_type = 7,
     ObjName         |-> b.name = g.name,
-    ObjFlags        |-> /\ b.deprecated = B(Has(g.deprecated)) /\ b.abstract = B(Is1(g.abstract)) /\ b.final = B(Is1(g.final))
+    ObjFlags        |-> /\ Dep(g.deprecated, b.deprecated) /\ b.abstract = B(Is1(g.abstract)) /\ b.final = B(Is1(g.final))
                         /\ b.fundamental = B(Has(g.fundamental)),
     ObjGType        |-> b.gtype_name = g.gtype_name /\ b.gtype_init = g.gtype_init,
     ObjFuncs        |-> /\ b.ref_func = g.ref_func /\ b.unref_func = g.unref_func /\ b.set_value_func = g.set_value_func
@@ -420,7 +421,7 @@ ObjectNames == {"ObjKind", "ObjName", "ObjFlags", "ObjGType", "ObjFuncs", "ObjPa
 InterfaceClauses(env, g, b) == [
     IfaceKind       |-> b.blob_type = 8,
     IfaceName       |-> b.name = g.name,
-    IfaceDeprecated |-> b.deprecated = B(Has(g.deprecated)),
+    IfaceDeprecated |-> Dep(g.deprecated, b.deprecated),
     IfaceGType      |-> b.gtype_name = g.gtype_name /\ b.gtype_init = g.gtype_init,
     IfaceGTypeStruct |-> RefMatches(env, g.gtype_struct, b.gtype_struct),
     IfacePrerequisitesInOrder |-> RefsMatch(env, g.prerequisites, b.prerequisites) /\ b.n_prerequisites = Len(g.prerequisites),
@@ -434,7 +435,7 @@ InterfaceNames == {"IfaceKind", "IfaceName", "IfaceDeprecated", "IfaceGType", "I
 
 (* Callback entry: g = [name, deprecated] *)
 CallbackClauses(g, b) == [ CallbackKind |-> b.blob_type = 2, CallbackName |-> b.name = g.name,
-                           CallbackDeprecated |-> b.deprecated = B(Has(g.deprecated)) ]
+                           CallbackDeprecated |-> Dep(g.deprecated, b.deprecated) ]
 CallbackNames == {"CallbackKind", "CallbackName", "CallbackDeprecated"}
 
 (* Attributes of one node: g.attrs / b.attrs = <<[name, value]>>; b = the AttributeBlobs whose offset is the node's offset *)
@@ -538,10 +539,108 @@ LayoutAll(kind, c) ==
        /\ \A k \in 1..Len(it) : MemberOffset(kind, c, it[k].sec, it[k].i) = it[k].off                    \* ReaderMeetsWriter
        /\ FixedSize(kind, c) = w.cur
 
+(* THE ACCESSORS' VIEW (C09, implementation-shaped): the offset arithmetic of giobjectinfo.c, giinterfaceinfo.c, gistructinfo.c,   *)
+(* giunioninfo.c and gienuminfo.c as written.  Fields of objects and structs are walked one by one looking at has_embedded_type;  *)
+(* the later sections of an object add n_fields field blobs and n_field_callbacks callback blobs.  unionWalks = TRUE: giunioninfo.c  *)
+(* walks the fields like gistructinfo.c (since fix f2204c4); FALSE: it multiplies, as it did before (kept as a what-if).          *)
+IndexPad(c) == (c.ni + (c.ni % 2)) * 2
+ObjFieldsBytes(c) == NF(c) * Size.field + NFC(c) * Size.callback
+ObjectAccessor(c, sec, i) ==
+    LET base == Size.object + IndexPad(c)
+        f == ObjFieldsBytes(c)
+    IN CASE sec = "fields" -> base + FieldsSize(c.cbs, i)
+         [] sec = "properties" -> base + f + i * Size.property
+         [] sec = "methods" -> base + f + c.np * Size.property + i * Size.function
+         [] sec = "signals" -> base + f + c.np * Size.property + c.nm * Size.function + i * Size.signal
+         [] sec = "vfuncs" -> base + f + c.np * Size.property + c.nm * Size.function + c.ns * Size.signal + i * Size.vfunc
+         [] sec = "constants" -> base + f + c.np * Size.property + c.nm * Size.function + c.ns * Size.signal + c.nv * Size.vfunc
+                                 + i * Size.constant
+InterfaceAccessor(c, sec, i) ==
+    LET base == Size.interface + IndexPad(c)
+    IN CASE sec = "properties" -> base + i * Size.property
+         [] sec = "methods" -> base + c.np * Size.property + i * Size.function
+         [] sec = "signals" -> base + c.np * Size.property + c.nm * Size.function + i * Size.signal
+         [] sec = "vfuncs" -> base + c.np * Size.property + c.nm * Size.function + c.ns * Size.signal + i * Size.vfunc
+         [] sec = "constants" -> base + c.np * Size.property + c.nm * Size.function + c.ns * Size.signal + c.nv * Size.vfunc
+                                 + i * Size.constant
+AccessorOffset(kind, c, sec, i, unionWalks) ==
+    CASE kind = "object" -> ObjectAccessor(c, sec, i)
+      [] kind = "interface" -> InterfaceAccessor(c, sec, i)
+      [] kind = "struct" -> (IF sec = "fields" THEN Size.struct + FieldsSize(c.cbs, i)
+                             ELSE Size.struct + FieldsSize(c.cbs, NF(c)) + i * Size.function)
+      [] kind = "union" -> (IF unionWalks
+                            THEN (IF sec = "fields" THEN Size.union + FieldsSize(c.cbs, i)
+                                  ELSE Size.union + FieldsSize(c.cbs, NF(c)) + i * Size.function)
+                            ELSE (IF sec = "fields" THEN Size.union + i * Size.field
+                                  ELSE Size.union + NF(c) * Size.field + i * Size.function))
+      [] kind = "enum" -> (IF sec = "values" THEN Size.enum + i * Size.value
+                           ELSE Size.enum + c.nvals * Size.value + i * Size.function)
+AccessorsMeetFormat(kind, c, unionWalks) ==
+    \A k \in 1..Len(Sections(kind)) : LET sec == Sections(kind)[k] IN
+        \A i \in 0..(Count(c, sec) - 1) : AccessorOffset(kind, c, sec, i, unionWalks) = MemberOffset(kind, c, sec, i)
+
 (* File-level layout invariants on a sorted list of extents <<[at, size]>> (all fixed structures and strings the decoder met) *)
 ExtAligned4(ext) == \A k \in 1..Len(ext) : ext[k].what # "string" /\ ext[k].what # "constant-value" => ext[k].at % 4 = 0
 ExtStringsAligned4(ext) == \A k \in 1..Len(ext) : ext[k].at % 4 = 0
 ExtInBounds(ext, size) == \A k \in 1..Len(ext) : ext[k].at >= 0 /\ ext[k].at + ext[k].size <= size
 ExtNoOverlap(ext) == \A k \in 1..(Len(ext) - 1) : ext[k].at + ext[k].size <= ext[k + 1].at
 
+
+---------------------------------------------------------------------------
+(* Part 3 (C06): the document level and the layout of a decoded file.                                                        *)
+(* gdoc = [ns, version, shlib, cprefix, deps <<"Ns-Ver">>, entries <<[name, bt]>>]  top-level elements that are kept          *)
+(*        (introspectable, not shadowed, not <alias>), in document order, bt = blob type the element kind maps to            *)
+(* bdoc = [namespace, nsversion, shared_library, c_prefix, deps (the dependency string split at "|"), n_entries,             *)
+(*         n_local_entries, local <<[name, bt]>> (directory entries with the local bit, directory order),                    *)
+(*         xrefs <<[name, ns, bt, after]>> (directory entries without the local bit; after = no local entry follows)]                                           *)
+PairSet(s) == {<<s[i].name, s[i].bt>> : i \in 1..Len(s)}
+DocClauses(g, b) == [
+    DocNamespace     |-> b.namespace = g.ns /\ b.nsversion = g.version,
+    DocSharedLibrary |-> b.shared_library = g.shlib,
+    DocCPrefix       |-> b.c_prefix = g.cprefix,
+    DocDependencies  |-> SeqToSet(b.deps) = SeqToSet(g.deps) /\ NoDup(b.deps),
+    DocEntriesSameSet |-> PairSet(b.local) = PairSet(g.entries) /\ Len(b.local) = Len(g.entries) /\ NoDup(Names(b.local)),
+    DocCounts        |-> b.n_local_entries = Len(b.local) /\ b.n_entries = Len(b.local) + Len(b.xrefs),
+    DocXrefs         |-> /\ \A i \in 1..Len(b.xrefs) : b.xrefs[i].bt = 0 /\ b.xrefs[i].ns # "" /\ b.xrefs[i].after
+                         /\ Cardinality({<<b.xrefs[i].ns, b.xrefs[i].name>> : i \in 1..Len(b.xrefs)}) = Len(b.xrefs) ]
+DocNames == {"DocNamespace", "DocSharedLibrary", "DocCPrefix", "DocDependencies", "DocEntriesSameSet", "DocCounts", "DocXrefs"}
+\* what the code does beyond the statement (reported as DRIFT, never a verdict): directory order = document order
+DocOrderDrift(g, b) == Names(b.local) = Names(g.entries)
+
+(* lay = [size (bytes in the file), hsize (Header.size), sizes (the blob sizes recorded in the header), directory, attributes,   *)
+(*        ext <<[at, size, what]>> sorted by at: every fixed structure, string and constant value the decoder met,           *)
+(*        attr_offsets <<AttributeBlob.offset in table order>>]                                                              *)
+RECURSIVE NonDecreasing(_, _)
+NonDecreasing(s, k) == IF k >= Len(s) THEN TRUE ELSE s[k] <= s[k + 1] /\ NonDecreasing(s, k + 1)
+LayoutClauses(lay) == [
+    LayoutHeaderSizes |-> HeaderSizesMatch(lay.sizes),
+    LayoutFileSize    |-> lay.hsize = lay.size,
+    LayoutAligned     |-> ExtStringsAligned4(lay.ext) /\ lay.directory % 4 = 0 /\ lay.attributes % 4 = 0,
+    LayoutInBounds    |-> ExtInBounds(lay.ext, lay.size),
+    LayoutNoOverlap   |-> ExtNoOverlap(lay.ext),
+    LayoutAttrSorted  |-> \A k \in 1..(Len(lay.attr_offsets) - 1) : lay.attr_offsets[k] <= lay.attr_offsets[k + 1] ]
+LayoutNames == {"LayoutHeaderSizes", "LayoutFileSize", "LayoutAligned", "LayoutInBounds", "LayoutNoOverlap", "LayoutAttrSorted"}
+
+(* A container blob as the decoder walked it: con = [kind, at, counts (as in part 2), members <<[sec, i, at, cbat]>>, end]       *)
+(* cbat = offset of the CallbackBlob embedded after a field, 0 if none.  The format's closed form must give the same places.  *)
+ContainerClauses(con) == [
+    ReaderView |-> /\ \A k \in 1..Len(con.members) :
+                        LET m == con.members[k] IN
+                        /\ m.at = con.at + MemberOffset(con.kind, con.counts, m.sec, m.i)
+                        /\ (m.cbat # 0 => m.cbat = con.at + EmbeddedCallbackOffset(con.kind, con.counts, m.i))
+                   /\ con.end = con.at + FixedSize(con.kind, con.counts) ]
+ContainerNames == {"ReaderView"}
+
+(* determinism: det = [rc1, rc2, sha1, sha2]  (two runs of the compiler on the same file) *)
+DetClauses(det) == [ Deterministic |-> det.rc1 = det.rc2 /\ det.sha1 = det.sha2 ]
+DetNames == {"Deterministic"}
+(* acceptance: acc = [rc, validated (the compiler's own g_typelib_validate did not complain), decoded (the independent decoder  *)
+(* could read the file)]: whenever the compiler accepts the document the file must validate and decode                        *)
+AcceptClauses(acc) == [ Validates |-> acc.rc = 0 => (acc.validated /\ acc.decoded) ]
+AcceptNames == {"Validates"}
+
+\* attributes of an enumeration member: the compiler additionally records c:identifier; the statement is silent about that
+ValueAttrClauses(g, b) == [ Attributes |-> LET extra == {<<"c:identifier", g.cid>>} IN
+                                           /\ AttrPairs(b.attrs) \ extra = AttrPairs(g.attrs) \ extra
+                                           /\ Len(b.attrs) = Cardinality(AttrPairs(b.attrs)) ]
 =============================================================================
